@@ -237,6 +237,30 @@ def prepare(tier):
             AC.prime_below(n * W); AC.prime_below(n * W - W + 2)
     CR.prepare(tier, NMAX[tier])
 
+VM_NAMES = {161: 'u16RotHi', 160: 'u16RotLo', 321: 'u32RotHi', 320: 'u32RotLo', 641: 'u64RotHi', 640: 'u64RotLo', 648: 'u64Rev_', 30: 'MIN3', 31: 'MAX3', 40: 'MIN4', 41: 'MAX4'}
+def value_macro_sweep(cfg):
+    """header macros that no library source uses (drv/vh_macros.c): complete over u16 x shift, boundary alphabets x every shift for u32 / u64,
+    every tuple over {0, 1, 2, 3, SIZE_MAX} for MIN3 .. MAX4 -> (evaluations, message or None)"""
+    L = common.lib(cfg)
+    if not L.has('vm_value_macros_sweep'):
+        return 0, None
+    out = (ctypes.c_ulonglong * 6)()
+    L.dll.vm_value_macros_sweep(out)
+    if out[1]:
+        return out[0], '%s(%#x, %d) = %#x differs from its definition (%d mismatches in the sweep) [cfg %s]' % (VM_NAMES.get(out[2], '?'), out[3], out[4], out[5], out[1], cfg)
+    return out[0], None
+
+def header_macros(chk):
+    res = vf.pmap(value_macro_sweep, list(CC.CFGS), case_timeout=300)
+    n = 0
+    for cfg, r in zip(CC.CFGS, res):
+        if isinstance(r, dict):
+            chk.violation('header-macros:crash:' + cfg, {'kind': 'vmacro', 'cfg': cfg}, 'value macro sweep crashed: %s' % str(r)[-400:]); continue
+        n += r[0]
+        if r[1]:
+            chk.violation('header-macros:' + r[1].split('(')[0], {'kind': 'vmacro', 'cfg': cfg}, r[1])
+    chk.part('header_value_macros', states=len(VM_NAMES), transitions=n, traces_validated_against_impl=n, evaluations=n)
+
 def run(tier):
     T0[0] = time.time()
     chk = vf.Check(PROP, tier, deadline_s=900 if tier == 'quick' else 2400)
@@ -244,6 +268,7 @@ def run(tier):
     prepare(tier)
     if not fns:
         sweeps(chk)
+        header_macros(chk)
     catalogue(chk, tier, fns)
     if not fns or 'rings' in fns:
         if chk.expired():
@@ -261,6 +286,9 @@ def run(tier):
                       'complete 2^16 sweeps of the u16 helpers' % NMAX[tier])
 
 def replay(rec):
+    if rec['kind'] == 'vmacro':
+        r = vf.pmap(value_macro_sweep, [rec['cfg']], nproc=1)[0]
+        return r[1] if not isinstance(r, dict) else str(r)[-300:]
     if rec['kind'] == 'sweep':
         return replay_sweep(rec)
     if rec['kind'] == 'ring':
